@@ -110,6 +110,13 @@ def families(tier):
             for order in ([names] if len(names) == 1 else [names, names[::-1]]):
                 out.append(dict(prop='C16', family='c16.stop', id=f'c16/stop-{sname}-t{tmo}-p{int(par)}-h{hist}-o{"".join(order)}', cfg=cfg, params=dict(state=sname, tmo=tmo),
                                 scn=dict(buses={b: dict(parallel=par, hist=hist) for b in names}, order=order, handlers=hs, main=main, actors=[], forwards=[], settle=1.5)))
+    # stop() called again on a bus that was already stopped (teardown code typically does), with and without a positive timeout, while a backlog is left over
+    for (sname, names, hs, pre), t1, t2, gap in itertools.product(_states(deep), (None, 0), (0.3, None, 0), ('pause', 'sleep')):
+        if sname not in ('backlog3', 'paused', 'paused2', 'two_buses', 'awaiting_child_A'):
+            continue
+        main = list(pre) + [('stop', 'A', t1), ('pause',) if gap == 'pause' else ('sleep', 0.15), ('stop', 'A', t2), ('pause',)]
+        out.append(dict(prop='C16', family='c16.stop_twice', id=f'c16/stop2-{sname}-t{t1}-t{t2}-{gap}', cfg=cfg, params=dict(state=sname, tmo=t2),
+                        scn=dict(buses={b: {} for b in names}, order=names, handlers=hs, main=main, actors=[], forwards=[], settle=1.5)))
     for (sname, names, hs, pre), par, hist in itertools.product(_states(deep), (False, True), (50, None)):
         if par and sname not in ('paused', 'awaiting_child_A', 'raising'):
             continue
